@@ -156,6 +156,27 @@ Theorem c14_shutdown_during_wait_metric_log_refuted :
 Proof. split; [exact shutdown_no_effect | exact shutdown_not_interrupting_witness]. Qed.
 Print Assumptions c14_shutdown_during_wait_metric_log_refuted.
 
+(** With the real wait() ([wait_ctx_fires], as repaired by 4b7b30b): a done context ends the export at the next wait,
+    whatever its length (zero back-off included) - for every clock, back-off and throttle. *)
+Theorem c14_gives_up_on_done_context : forall e1 e2 bo ctx_done k thr,
+  ctx_done k = true -> give_up e1 e2 bo (wait_ctx_fires ctx_done) 0 k thr = Some ECtx.
+Proof. exact done_context_gives_up. Qed.
+Print Assumptions c14_gives_up_on_done_context.
+
+Theorem c14_done_context_single_attempt : forall e1 e2 bo thr rest,
+  let o := retry_run e1 e2 bo (wait_ctx_fires (fun _ => true)) {| enabled := true; max_elapsed := 0 |} (ORetry thr :: rest) in
+  attempts o = 1%nat /\ res o = RErr ECtx.
+Proof. exact done_context_single_attempt. Qed.
+Print Assumptions c14_done_context_single_attempt.
+
+(** The wait as it was before the repair (F-C14-3, fixed): with zero delays and no elapsed limit a done context was never
+    noticed - for every n the loop makes all n attempts of a retry-able script of length n and is still running. *)
+Theorem c14_gives_up_on_done_context_old_refuted : forall e1 e2 n,
+  let o := retry_run e1 e2 (fun _ => 0) (wait_ctx_fires_old (fun _ => true)) {| enabled := true; max_elapsed := 0 |} (repeat (ORetry 0) n) in
+  attempts o = n /\ res o = RPending /\ waits o = repeat 0 n.
+Proof. intros e1 e2 n. exact (zero_delay_never_gives_up_old e1 e2 n 0%nat). Qed.
+Print Assumptions c14_gives_up_on_done_context_old_refuted.
+
 (** ** Non-vacuity *)
 Definition ex_cfg : config := {| enabled := true; max_elapsed := 1000 |}.
 Definition ex_script : list response :=
